@@ -156,11 +156,25 @@ def der_mutants(r, s):
         out.append(good[:i] + good[i + 1:])
     rb = rd.enc_int(r)
     sb = rd.enc_int(s)
-    # non-minimal encodings of the same numbers
-    pr = b"\x02" + rd.enc_len(len(rb) - 2 + 1) + b"\x00" + rb[2:]
-    ps = b"\x02" + rd.enc_len(len(sb) - 2 + 1) + b"\x00" + sb[2:]
+
+    def body_of(tlv_bytes):
+        ln, pos = rd.read_len(tlv_bytes, 1)
+        return tlv_bytes[pos:]
+
+    # non-minimal encodings of the same numbers (superfluous leading zero)
+    pr = rd.tlv(0x02, b"\x00" + body_of(rb))
+    ps = rd.tlv(0x02, b"\x00" + body_of(sb))
+    # one superfluous length octet on the SEQUENCE / on an INTEGER header
+    def fat(tlv_bytes):
+        tag = tlv_bytes[0]
+        ln, pos = rd.read_len(tlv_bytes, 1)
+        lb = tlv_bytes[1:pos]
+        body = tlv_bytes[pos:]
+        if lb[0] & 0x80:
+            return bytes([tag, 0x80 | ((lb[0] & 0x7f) + 1), 0]) + lb[1:] + body
+        return bytes([tag, 0x81]) + lb + body
+    out += [fat(good), rd.tlv(0x30, fat(rb) + sb), rd.tlv(0x30, rb + fat(sb))]
     out += [rd.tlv(0x30, pr + sb), rd.tlv(0x30, rb + ps),
-            b"\x30\x81" + bytes([len(rb + sb)]) + rb + sb,
             rd.tlv(0x30, rb + sb + b"\x02\x01\x01"), rd.tlv(0x30, rb),
             rd.tlv(0x31, rb + sb)]
     return out
